@@ -4,23 +4,30 @@ use crate::ctx::Opts;
 pub mod common;
 pub mod c01;
 pub mod c02;
+pub mod c03;
 pub mod c04;
 pub mod c08;
 pub mod c10;
 pub mod c11;
+pub mod c12;
+pub mod c13;
 pub mod c19;
 pub mod c20;
+pub mod genhist;
 pub mod objops;
 
 pub fn dispatch(cmd: &str, o: &Opts) -> i32 {
     match cmd {
         "c01" => c01::run(o),
         "c02" => c02::run(o),
+        "c03" => c03::run(o),
         "c04" => c04::run(o),
         "c08" => c08::run_c08(o),
         "c09" => c08::run_c09(o),
         "c10" => c10::run(o),
         "c11" => c11::run(o),
+        "c12" => c12::run(o),
+        "c13" => c13::run(o),
         "c19" => c19::run(o),
         "c20" => c20::run(o),
         "selfcheck" => match common::selfcheck(o) {
